@@ -73,6 +73,13 @@ def selector_forms(names):
     return out
 
 
+# a step applied to ALL resources right before the step under test (it gives every resource the 'same' new fields;
+# the step under test then works on exactly those fields): selection must still be per resource
+PRELUDES = ['add_field', 'unpivot']
+PRELUDE_PROCS = ['set_type', 'rename_fields', 'delete_fields', 'select_fields', 'sort_rows', 'add_field',
+                 'add_computed_field', 'update_schema', 'set_primary_key', 'find_replace', 'filter_rows']
+
+
 def enumerate_cases(tier):
     out = []
     for names in FIXED_PACKAGES:
@@ -80,6 +87,11 @@ def enumerate_cases(tier):
             for p in PROCS:
                 out.append({'proc': p, 'names': names, 'sel': sel})
             out.append({'proc': 'load_tuple', 'names': names, 'sel': sel, 'seq_iters': True})
+    for names in FIXED_PACKAGES[1:4]:
+        for sel in selector_forms(names):
+            for pre in PRELUDES:
+                for p in PRELUDE_PROCS:
+                    out.append({'proc': p, 'names': names, 'sel': sel, 'prelude': pre})
     return out
 
 
@@ -88,7 +100,11 @@ def drawn_case(draw):
     n = draw(st.integers(1, 4))
     names = draw(st.lists(st.sampled_from(gen.RES_NAMES), min_size=n, max_size=n, unique=True))
     sel = draw(st.sampled_from(selector_forms(names) + ['a.b', 'a.*b', '[ab].*', 'res_1.?', '.+b', 'a|ab|abc']))
-    return {'proc': draw(st.sampled_from(PROCS)), 'names': names, 'sel': sel, 'seq_iters': draw(st.booleans())}
+    c = {'proc': draw(st.sampled_from(PROCS)), 'names': names, 'sel': sel, 'seq_iters': draw(st.booleans())}
+    if draw(st.integers(0, 2)) == 0:
+        c['proc'] = draw(st.sampled_from(PRELUDE_PROCS))
+        c['prelude'] = draw(st.sampled_from(PRELUDES))
+    return c
 
 
 def cases(tier):
@@ -113,9 +129,37 @@ def build_pkg(names, bad_rows=False):
     return pkg
 
 
-def build_step(proc, sel, capture=None):
+def build_prelude(kind):
+    d = dataflows
+    if kind == 'add_field':
+        return [d.add_field('p0', 'integer', 5), d.add_field('s0', 'string', 'keep-e')]
+    if kind == 'unpivot':
+        return [d.unpivot([{'name': 'n', 'keys': {'k': 'eN'}}, {'name': 'm', 'keys': {'k': 'eM'}}],
+                          [{'name': 'k', 'type': 'string'}], {'name': 'val', 'type': 'integer'})]
+    return []
+
+
+def build_step(proc, sel, capture=None, prelude=None):
     sel = copy.deepcopy(sel)
     d = dataflows
+    if prelude:
+        numf, strf = ('p0', 's0') if prelude == 'add_field' else ('val', 'k')
+        if proc == 'set_type':
+            return d.set_type(numf, resources=sel, type='number')
+        if proc == 'rename_fields':
+            return d.rename_fields({numf: 'renamed_num', strf: 'renamed_str'}, resources=sel)
+        if proc == 'delete_fields':
+            return d.delete_fields([numf], resources=sel)
+        if proc == 'select_fields':
+            return d.select_fields([strf, 'id'], resources=sel)
+        if proc == 'sort_rows':
+            return d.sort_rows('{id}{%s}' % strf, resources=sel, reverse=True)
+        if proc == 'find_replace':
+            return d.find_replace([{'name': strf, 'patterns': [{'find': 'e', 'replace': 'E'}]}], resources=sel)
+        if proc == 'filter_rows':
+            return d.filter_rows(equals=[{'id': 1}], resources=sel)
+        if proc == 'set_primary_key':
+            return d.set_primary_key([strf], resources=sel)
     if proc == 'validate':
         return d.validate(resources=sel, on_error=d.base.schema_validator.drop)
     if proc == 'deduplicate':
@@ -247,10 +291,17 @@ def check(case, ctx):
                 raise
             raise Violation('set_type:empty-selection-accepted', {})
         sched_ = proc == 'parallelize'
-        out_desc, out = run([build_step(proc, sel, capture)], pkg, scheduled=sched_)
-        ref_desc = passthrough_desc(gen.descriptor_of(pkg))
+        pre = case.get('prelude')
+        if pre:
+            classes.append('prelude:' + pre)
+        out_desc, out = run(build_prelude(pre) + [build_step(proc, sel, capture, pre)], pkg, scheduled=sched_)
+        if pre:
+            # reference for "passes through unchanged": the same pipeline without the step under test
+            ref_desc, ref_rows = run(build_prelude(pre), pkg)
+        else:
+            ref_desc, ref_rows = passthrough_desc(gen.descriptor_of(pkg)), [r['rows'] for r in pkg]
         if sub:
-            sub_desc, sub_out = run([build_step(proc, None, [])], sub, scheduled=sched_)
+            sub_desc, sub_out = run(build_prelude(pre) + [build_step(proc, None, [], pre)], sub, scheduled=sched_)
         else:
             sub_desc, sub_out = {'resources': []}, []
     except Violation:
@@ -276,9 +327,9 @@ def check(case, ctx):
         d, rows = by_name[nm]
         if d != ref_desc['resources'][i]:
             raise Violation('%s:unselected-descriptor-changed' % proc, {'resource': nm, 'selector': sel})
-        if rows != pkg[i]['rows'] and not (proc == 'parallelize' and sorted(map(repr, rows)) == sorted(map(repr, pkg[i]['rows']))):
+        if rows != ref_rows[i] and not (proc == 'parallelize' and sorted(map(repr, rows)) == sorted(map(repr, ref_rows[i]))):
             raise Violation('%s:unselected-rows-changed' % proc, {'resource': nm, 'selector': sel,
-                                                                  'diff': first_diff(rows, pkg[i]['rows'])})
+                                                                  'diff': first_diff(rows, ref_rows[i])})
     # selected resources: same as the step with resources=None on the sub-package
     if proc == 'concatenate':
         d, rows = by_name['merged']
@@ -295,8 +346,8 @@ def check(case, ctx):
                 raise Violation('%s:selected-rows-differ-from-unrestricted-run' % proc,
                                 {'resource': names[i], 'selector': sel, 'diff': first_diff(rows, sub_out[j])})
             # and the step really did something to the selected resource (guards against a vacuous check)
-            if proc not in ('printer',) and d == ref_desc['resources'][i] and rows == pkg[i]['rows']:
+            if proc not in ('printer',) and d == ref_desc['resources'][i] and rows == ref_rows[i]:
                 raise Violation('%s:selected-resource-untouched' % proc, {'resource': names[i], 'selector': sel})
     if proc == 'printer' and capture != [names[i] for i in idxs]:
         raise Violation('printer:printed-resources', {'got': capture, 'expected': [names[i] for i in idxs]})
-    return Info(nontrivial=nontrivial, classes=classes, key=json.dumps([proc, sel, names]))
+    return Info(nontrivial=nontrivial, classes=classes, key=json.dumps([proc, sel, names, case.get('prelude')]))
